@@ -3,7 +3,7 @@
 P=$1; ID=$2; TIER=${3:-quick}
 cd /repo || exit 9
 git diff --quiet || { echo "repo dirty"; exit 9; }
-git apply "$P" || { echo "patch does not apply"; exit 9; }
+git apply "$P" 2>/dev/null || git apply -C1 "$P" 2>/dev/null || patch -p1 -s --fuzz=3 < "$P" || { echo "patch does not apply"; git checkout -- .; exit 9; }
 cd /verif && ./check "$ID" --tier "$TIER" 2>&1 | tail -${TAIL:-6}
 RC=$?
 git -C /repo checkout -- .
